@@ -263,6 +263,7 @@ func (g *GcsEmu) handleGcsDelete(ctx context.Context, w http.ResponseWriter, buc
 		if err := validateConds(obj, conds); err != nil {
 			return err
 		}
+		verifYield("gcs.delete.validated")
 
 		if err := g.store.Delete(bucket, filename); err != nil {
 			if os.IsNotExist(err) {
@@ -374,6 +375,7 @@ func (g *GcsEmu) handleGcsUpdateMetadataRequest(ctx context.Context, baseUrl Htt
 			return err
 		}
 
+		verifYield("gcs.patch.validated")
 		// Update via json decode.
 		metagen := obj.Metageneration
 		gen, md5Hash := obj.Generation, obj.Md5Hash
@@ -428,6 +430,7 @@ func (g *GcsEmu) handleGcsCopy(ctx context.Context, baseUrl HttpBaseUrl, w http.
 	// Must lock the destination object.
 	var obj *storage.Object
 	err := g.locks.Run(ctx, lockName(b2, f2), func(ctx context.Context) error {
+		verifYield("gcs.copy.locked")
 		if ok, err := g.store.Copy(b1, f1, b2, f2); err != nil {
 			return err
 		} else if !ok {
@@ -670,6 +673,7 @@ func (g *GcsEmu) finishUpload(ctx context.Context, baseUrl HttpBaseUrl, obj *sto
 		if existing != nil {
 			obj.TimeCreated = existing.TimeCreated
 		}
+		verifYield("gcs.upload.validated")
 
 		if err := g.store.Add(bucket, filename, contents, obj); err != nil {
 			return fmt.Errorf("failed to create %s/%s: %w", bucket, filename, err)
@@ -822,6 +826,7 @@ func (g *GcsEmu) finishCompose(baseUrl HttpBaseUrl, bucket string, dst composeOb
 	if dstMeta != nil {
 		meta.TimeCreated = dstMeta.TimeCreated
 	}
+	verifYield("gcs.compose.validated")
 	if err := g.store.Add(bucket, dst.filename, data, meta); err != nil {
 		return nil, fmt.Errorf("failed to add new file: %w", err)
 	}
